@@ -169,6 +169,11 @@ def run_case(case, ctx):
         text = r.choice(["tomorrow", "heute", "friday", "morgen 18 Uhr", "übermorgen", "5.3.", "the 5th", "next monday", "yesterday", "am freitag um 8",
                          "end of month", "monday 9-5", "tomorrow 8pm"])
         tss = r.sample([datetime(2019, 12, 31, 8), datetime(2020, 2, 28, 23, 10), datetime(2021, 3, 10, 12, 43), datetime(2022, 7, 1), datetime(2024, 2, 29, 9)], 3)
+        if case["i"] % 3 == 2:
+            # ... and under reference times that share the DAY: expressions whose candidates depend on the time of day
+            text = r.choice(["now", "jetzt", "abends", "evening", "morning", "this morning", "nachmittags", "right now", "morgens", "night"])
+            d0 = r.choice([datetime(2020, 2, 25), datetime(2021, 3, 10), datetime(2023, 12, 31)])
+            tss = [d0.replace(hour=h, minute=m) for h, m in r.sample([(5, 10), (12, 43), (21, 40), (0, 0), (17, 5), (23, 59)], 3)]
         entries = []
         for ts in tss:
             cands = [p for p in L.ctparse_gen(text, ts=ts, timeout=0, max_stack_depth=10, latent_time=False) if p is not None]
